@@ -101,6 +101,152 @@ def oracle(case, est=None):
     return None
 
 
+# ----------------------------------------------------------------------------- the single-call route fit_transform
+# The declared dimensions and sample counts must describe the arrays of EVERY public route that fits and lifts, not only
+# fit(X).transform(X): fit_transform(X, n_inputs=..., episode_feature=...) of every lifting function, SplitPipeline and
+# KoopmanPipeline (with a regressor) must return exactly what fit(X).transform(X) returns.
+
+ROUTE_KINDS = ['delay'] * 5 + ['poly', 'poly', 'sk', 'const', 'bilinear', 'angle', 'rbf', 'kernel']
+
+
+def node_inputs(spec, est, X, nu, ep, out=None):
+    """Pre-order list of (spec, the matrix this estimator is handed inside the tree, its n_inputs). The matrices are
+    rebuilt here (columns of a SplitPipeline sliced by hand, stages of a chain applied one by one through transform of
+    the estimator fitted on the fit route), so that every estimator of the tree can be exercised on its own."""
+    out = [] if out is None else out
+    out.append((spec, X, nu))
+    e0 = 1 if ep else 0
+    k = spec['k']
+    if k == 'pipe':
+        cur, cur_nu = X, nu
+        for s, (_, e) in zip(spec['ss'], est.lifting_functions_):
+            node_inputs(s, e, cur, cur_nu, ep, out)
+            cur, cur_nu = np.array(e.transform(cur), dtype=float), int(e.n_inputs_out_)
+    elif k == 'split':
+        nx = X.shape[1] - e0 - nu
+        cur = np.array(X[:, :e0 + nx], dtype=float)
+        for s, (_, e) in zip(spec['a'], est.lifting_functions_state_):
+            node_inputs(s, e, cur, 0, ep, out)
+            cur = np.array(e.transform(cur), dtype=float)
+        cur = np.hstack((np.array(X[:, :e0], dtype=float), np.array(X[:, e0 + nx:], dtype=float)))
+        for s, (_, e) in zip(spec['b'], est.lifting_functions_input_):
+            node_inputs(s, e, cur, cur.shape[1] - e0, ep, out)
+            cur = np.array(e.transform(cur), dtype=float)
+    return out
+
+
+def _dims(e):
+    return [int(e.n_features_in_), int(e.n_states_in_), int(e.n_inputs_in_), int(e.n_features_out_),
+            int(e.n_states_out_), int(e.n_inputs_out_), int(e.min_samples_)]
+
+
+def route_node(spec, X, nu, ep):
+    """fit_transform of ONE estimator on the matrix X against the property and against fit(X).transform(X) of a second,
+    separately built estimator. Returns (None | description, 'checked' | 'skipped')."""
+    a_nu, a_ep = pipes.arg_forms(spec, nu, ep)
+    try:
+        ref = pipes.build(spec)
+        ref.fit(X, n_inputs=a_nu, episode_feature=a_ep)
+        Y_ref = np.asarray(ref.transform(X), dtype=float)
+    except Exception:
+        return None, 'skipped'          # the two-call route does not accept this input: nothing to compare with
+    name = type(ref).__name__
+    est = pipes.build(spec)
+    try:
+        Y = est.fit_transform(X, n_inputs=a_nu, episode_feature=a_ep)
+    except Exception as e:      # noqa
+        return f'{name}.fit_transform raised {type(e).__name__} where fit(X).transform(X) succeeds', 'checked'
+    Y = np.asarray(Y, dtype=float)
+    e0 = 1 if ep else 0
+    if Y.ndim != 2:
+        return f'{name}.fit_transform returned an array of {Y.ndim} dimensions', 'checked'
+    # the property, stated on the array this route returns
+    if Y.shape[1] != est.n_features_out_:
+        return f'{name}.fit_transform width {Y.shape[1]} != n_features_out_ {est.n_features_out_}', 'checked'
+    if est.n_features_out_ != e0 + est.n_states_out_ + est.n_inputs_out_:
+        return f'{name} after fit_transform: n_features_out_ != episode column + n_states_out_ + n_inputs_out_', 'checked'
+    if est.min_samples_ != est.n_samples_in(1):
+        return f'{name} after fit_transform: min_samples_ != n_samples_in(1)', 'checked'
+    ms = int(est.min_samples_)
+    got = dict((l, B.shape[0]) for l, B in st.ref_split(Y, ep)) if Y.shape[0] else {}
+    for l, Xe in st.ref_split(X, ep):
+        n = Xe.shape[0]
+        if n >= ms and got.get(l, 0) != n - ms + 1:
+            return (f'{name}.fit_transform: episode {l} of {n} samples -> {got.get(l, 0)} lifted samples, '
+                    f'n - min_samples_ + 1 = {n - ms + 1}'), 'checked'
+    # the same estimator fitted through fit: same declared dimensions, same array
+    if _dims(est) != _dims(ref):
+        return f'{name}: declared dimensions after fit_transform {_dims(est)} != after fit {_dims(ref)}', 'checked'
+    if Y.shape != Y_ref.shape:
+        return f'{name}.fit_transform shape {Y.shape} != fit(X).transform(X) shape {Y_ref.shape}', 'checked'
+    if ep and not np.array_equal(Y[:, 0], Y_ref[:, 0]):
+        return f'{name}.fit_transform episode column differs from fit(X).transform(X)', 'checked'
+    if not np.allclose(Y, Y_ref, rtol=1e-9, atol=1e-12, equal_nan=True):
+        bad = ~np.isclose(Y, Y_ref, rtol=1e-9, atol=1e-12, equal_nan=True)
+        i, j = [int(v[0]) for v in np.nonzero(bad)]
+        return (f'{name}.fit_transform values differ from fit(X).transform(X): first at row {i} column {j}: '
+                f'{Y[i, j]!r} vs {Y_ref[i, j]!r} ({int(bad.sum())} entries)'), 'checked'
+    return None, 'checked'
+
+
+def route_oracle(case, est=None, ctx=None):
+    """fit_transform == fit().transform(), with the declared width / samples per episode, for EVERY estimator of the tree
+    (each on the matrix it is handed inside the tree). Returns None or a description."""
+    try:
+        if est is None:
+            est = st.fit_case(case)
+        X = st.X_of(case)
+        nodes = node_inputs(case['spec'], est, X, case['nu'], case['ep'])
+    except Exception:
+        return None
+    for i, (sp, Xin, nu) in enumerate(nodes):
+        why, status = route_node(sp, Xin, nu, case['ep'])
+        if ctx is not None:
+            ctx.count('route:fit_transform ' + status)
+            if status == 'checked':
+                ctx.count('route:fit_transform of ' + sp['k'])
+        if why:
+            return why + (f' [estimator {i} of the tree (pre-order): {json.dumps(sp, default=str)[:200]}, n_inputs={nu}]' if i else '')
+    return None
+
+
+def chain_losses_differ(spec):
+    """some SplitPipeline of the tree whose two chains drop a different number of samples"""
+    if spec['k'] == 'split' and sum(pipes.loss(s) for s in spec['a']) != sum(pipes.loss(s) for s in spec['b']):
+        return True
+    return any(chain_losses_differ(s) for key in ('a', 'b', 'ss') for s in spec.get(key, []))
+
+
+def route_cases(rng, n):
+    """Trees in which samples are dropped at many places (delays in chains, in both branches of splits, nested), on
+    records with an episode feature and two to four episodes of unequal length: the inputs on which a per-episode
+    sample count can go wrong. A third of them are SplitPipelines at top level with a delay in each branch."""
+    out = []
+    for i in range(n):
+        c = st.gen_case(rng, ROUTE_KINDS, max_depth=2, cap=40, opaque=True, ep=True, n_eps=rng.randint(2, 4), extra=5)
+        if i % 3 == 0 and c['nu'] > 0:
+            def chain(branch):
+                ss = [{'k': 'delay', 'dx': rng.randint(0, 3), 'du': 0} if branch == 'a'
+                      else {'k': 'delay', 'dx': 0, 'du': rng.randint(0, 3)}]
+                if rng.random() < 0.4:
+                    extra = rng.choice([{'k': 'poly', 'order': 2, 'io': False}, {'k': 'sk', 'scaler': 'standard'},
+                                        {'k': 'delay', 'dx': 1, 'du': 0} if branch == 'a' else {'k': 'delay', 'dx': 0, 'du': 1}])
+                    ss.insert(rng.randint(0, 1), extra)
+                return ss
+            spec = {'k': 'split', 'a': chain('a'), 'b': chain('b')}
+            if rng.random() < 0.3:
+                wrapped = {'k': 'pipe', 'ss': [spec] + ([{'k': 'poly', 'order': 2, 'io': False}] if rng.random() < 0.5 else [])}
+                if sum(pipes.widths(wrapped, c['nx'], c['nu'])) <= 60:      # lifted width stays bounded
+                    spec = wrapped
+            m = pipes.loss(spec) + 2
+            eps, order = pipes.gen_layout(rng, m, n_eps=rng.randint(2, 4), extra=5, ep=True)
+            rows = [[l] + [round(rng.uniform(-2.0, 2.0), 3) for _ in range(c['nx'] + c['nu'])] for (l, t) in order]
+            c = {'spec': spec, 'nx': c['nx'], 'nu': c['nu'], 'ep': True, 'rows': rows, 'min_len': m, 'form': 'c',
+                 'degenerate': False}
+        out.append(c)
+    return out
+
+
 def error_cases(rng, n):
     """Malformed stream: fit must raise, and the model must name the same error."""
     out = []
@@ -167,7 +313,7 @@ def population_search(ctx):
     ended the correspondence run early)"""
     for _ in range(300):
         c = st.gen_case(ctx.rng, KINDS, max_depth=3, cap=60, opaque=True)
-        why = oracle(c)
+        why = oracle(c) or route_oracle(c)
         if why:
             ctx.fail(why, c, {'kinds': sorted(pipes.kinds_in(c['spec']))})
             return
@@ -177,11 +323,20 @@ def run(ctx):
     ctx.rule = ('random lifting-function trees (all kinds, depth<=3, chains<=3, unequal delays, splits) x '
                 '(n_states 1..3, n_inputs 0..2, episode feature on/off) fitted on real pykoop and on the Lean '
                 'model; thorough adds a systematic enumeration of singles / 2-chains / splits; a case is '
-                'non-trivial when it has at least one stage and >= 2 rows; distinct by hash of the case')
+                'non-trivial when it has at least one stage and >= 2 rows; distinct by hash of the case; plus '
+                'delay-heavy trees (delays in chains and in both branches of splits, chains of a split dropping '
+                'different sample counts) on records with 2..4 episodes of unequal length, contiguous or interleaved; '
+                'on every fitted case the single-call route fit_transform is exercised for EVERY estimator of the tree '
+                '(each lifting function, SplitPipeline, KoopmanPipeline with a regressor) on the matrix it is handed '
+                'inside the tree')
     ctx.explanation = ('theorems C04_* about the executable Lean model (fit / tr / nSamplesIn / attrs); '
                        'correspondence: fitted attributes of EVERY estimator in the tree, n_samples_in(1..4) '
                        'and error enum compared exactly with the model; oracle: declared-vs-produced on the '
-                       'implementation')
+                       'implementation, for the route fit(X).transform(X) and for the route fit_transform(X): the array '
+                       'returned by fit_transform has width n_features_out_, n - min_samples_ + 1 samples for every '
+                       'episode (episodes separated by the harness, not by pykoop), and the same declared dimensions, '
+                       'shape, episode column and values (rtol 1e-9) as fit(X).transform(X) of a separately built '
+                       'estimator')
     ctx.proof_obligations('Properties.C04', THEOREMS)
     drv = ctx.get_driver()
     cases = []
@@ -191,6 +346,7 @@ def run(ctx):
     cases += error_cases(ctx.rng, ctx.n(20, 100))
     if ctx.tier == 'thorough':
         cases += enumerate_structures(ctx.rng, 12000)
+    cases += route_cases(ctx.rng, ctx.n(90, 900))
     obs, lines, ests = [], [], []
     for c in cases:
         o, est = impl_obs(c)
@@ -216,9 +372,16 @@ def run(ctx):
             if why:
                 small = st.shrink(c, lambda x: oracle(x))
                 ctx.fail(oracle(small) or why, small, {'kinds': sorted(pipes.kinds_in(c['spec']))})
+            if c['ep'] and len({r[0] for r in c['rows']}) > 1 and chain_losses_differ(c['spec']):
+                ctx.count('route:multi-episode, split chains drop different sample counts')
+            why = route_oracle(c, est, ctx)
+            if why:
+                small = st.shrink(c, lambda x: route_oracle(x))
+                ctx.fail(route_oracle(small) or why, small, {'kinds': sorted(pipes.kinds_in(c['spec'])),
+                                                             'route': 'fit_transform'})
     def search(ctx):
         for c in bad_cases[:50]:
-            why = oracle(c)
+            why = oracle(c) or route_oracle(c)
             if why:
                 ctx.fail(why, c, {'kinds': sorted(pipes.kinds_in(c['spec']))})
                 return
@@ -229,7 +392,7 @@ def run(ctx):
 def replay(ctx, path):
     obj = json.load(open(path))
     case = obj.get('case') or (obj.get('first_disagreement') or {}).get('case')
-    why = oracle(case)
+    why = oracle(case) or route_oracle(case)
     o, est = impl_obs(case)
     m = parse_model(ctx.get_driver().ask([model_line(case, est)])[0])
     print('oracle:', why)
